@@ -207,7 +207,11 @@ def run_env_property(ctx: Ctx, proofs_ok: bool, pid: str, only=None):
     tier = ctx.tier
     from vt.common import only_units
     only = only or only_units()
+    from vt.common import disabled_units
+    off = set() if only else disabled_units()
     for adapter in adapters():
+        if adapter.name in off:
+            continue
         if pid not in adapter.props or (only and adapter.name not in only):
             continue
         t0 = time.time()
